@@ -507,9 +507,14 @@ def rule_r3(prog, res, tier):
 
 
 # --------------------------------------------------------------------- R4
+def _is_generator(f):
+    return any(isinstance(x, (ast.Yield, ast.YieldFrom))
+               for x in walk_no_defs(f.node))
+
+
 def rule_r4(prog, res):
     res.rule('R4', 'wsgi.input reads are bounded, counted and guarded by the '
-             'max_content_length test')
+             'max_content_length test, which raises inside the fault funnel')
     c = prog.cls(WSGI)
     m = c.module
     readers = []
@@ -520,8 +525,10 @@ def rule_r4(prog, res):
     readers = list(dict.fromkeys(readers))
     res.floor('R4', 'functions touching wsgi.input', len(readers), 1)
     n_reads = 0
+    # (function, stream variable names, {param: caller expr text}) work list:
+    # the stream is followed into helpers of the same class it is passed to
+    work = []
     for f in readers:
-        # the stream variable
         svars = set()
         for node in walk_no_defs(f.node):
             if isinstance(node, ast.Assign) and any(
@@ -534,6 +541,14 @@ def rule_r4(prog, res):
             res.unclass('R4', f.where, 'wsgi.input used without a local in '
                         + f.qualname)
             continue
+        work.append((f, svars, None))
+    done = set()
+    guard_sites = []      # (function, node) where the limit test must hold
+    while work:
+        f, svars, via = work.pop(0)
+        if f in done:
+            continue
+        done.add(f)
         locals_ = {}
         for node in walk_no_defs(f.node):
             if isinstance(node, ast.Assign) and len(node.targets) == 1 and \
@@ -551,6 +566,21 @@ def rule_r4(prog, res):
                 if not is_read:
                     if isinstance(p, ast.Compare):
                         continue
+                    # passed on to a helper method of the same class: follow
+                    if isinstance(p, ast.Call) and node in p.args and \
+                            isinstance(p.func, ast.Attribute) and \
+                            dotted(p.func.value) == 'self':
+                        h = c.methods.get(p.func.attr) or \
+                            prog.find_method(c, p.func.attr)
+                        if h is not None:
+                            hp = h.params()[1:]
+                            i = p.args.index(node)
+                            if i < len(hp):
+                                work.append((h, {hp[i]}, (f, p)))
+                                res.ob('R4', where, '%s passes the stream to '
+                                       '%s' % (f.qualname, h.qualname), 'ok',
+                                       nontrivial=False)
+                                continue
                     res.ob('R4', where, '%s: stream used as %s' % (
                         f.qualname, unparse(pp if pp is not None else p)[:50]),
                         'VIOLATED')
@@ -621,8 +651,20 @@ def rule_r4(prog, res):
                                 '%s - %s never shrinks' % (cntvar, dvar,
                                                            lenvar, cntvar))
                     continue
-                # guard: length > self.max_content_length -> raise
-                g = flatten_guards(guards_at(call, stop=f.node))
+                # guard: length > self.max_content_length -> raise; when
+                # the read lives in a helper the test must dominate the call
+                # that hands the stream over (argument names mapped back)
+                gf, gnode, glen = f, call, lenvar
+                if via is not None:
+                    gf, gnode = via
+                    hp = f.params()[1:]
+                    if lenvar in hp and hp.index(lenvar) < len(gnode.args):
+                        glen = unparse(gnode.args[hp.index(lenvar)])
+                g = flatten_guards(guards_at(gnode, stop=gf.node)) + (
+                    flatten_guards(guards_at(call, stop=f.node))
+                    if via is not None else [])
+                lenvar_local = lenvar
+                lenvar = glen
                 verdict = None
                 for e, pol in g:
                     if not isinstance(e, ast.Compare) or len(e.ops) != 1:
@@ -644,7 +686,7 @@ def rule_r4(prog, res):
                 if verdict == 'ok':
                     # the failing branch raises RequestTooLongError
                     raises = False
-                    for a in walk_no_defs(f.node):
+                    for a in walk_no_defs(gf.node):
                         if isinstance(a, ast.If) and isinstance(
                                 a.test, ast.Compare) and lenvar in unparse(
                                 a.test) and 'max_content_length' in unparse(
@@ -653,6 +695,7 @@ def rule_r4(prog, res):
                                 if isinstance(s, ast.Raise) and \
                                         'RequestTooLongError' in unparse(s):
                                     raises = True
+                                    guard_sites.append((gf, s))
                     if raises:
                         res.ob('R4', where, inst + ' bounded by min(.., %s-%s)'
                                ', counted, guarded by %s > max_content_length'
@@ -674,6 +717,98 @@ def rule_r4(prog, res):
                                 'boundary (%s); must be %s > '
                                 'max_content_length' % (verdict, lenvar))
     res.floor('R4', 'sized reads', n_reads, 1)
+    # the refusal must be raised where it becomes a fault: lazily, inside the
+    # generator that the input protocol consumes within generate_contexts'
+    # try/except Fault (an eager raise in handle_rpc escapes the callable)
+    for gf, rs in list(dict.fromkeys(guard_sites)):
+        where = '%s:%d' % (gf.module.relpath, rs.lineno)
+        if _is_generator(gf):
+            res.ob('R4', where, '%s raises RequestTooLongError lazily (it is '
+                   'the generator consumed as ctx.in_string)' % gf.qualname,
+                   'ok')
+            continue
+        # eager: every caller chain up to handle_rpc must sit in a try that
+        # catches Fault
+        from ..flow import enclosing_trys, handler_names
+        covered = True
+        chain_txt = gf.qualname
+        cur = gf
+        hops = 0
+        while cur is not None and hops < 4:
+            hops += 1
+            callers = []
+            for h in c.methods.values():
+                for cc in calls_in(h.node):
+                    if isinstance(cc.func, ast.Attribute) and dotted(
+                            cc.func.value) == 'self' and \
+                            cc.func.attr == cur.name:
+                        callers.append((h, cc))
+            if not callers:
+                break
+            h, cc = callers[0]
+            chain_txt += ' <- ' + h.qualname
+            caught = False
+            for t, region in enclosing_trys(cc, stop=h.node):
+                if region == 'body' and any(
+                        not handler_names(x) or set(handler_names(x)) & {
+                            'Fault', 'Exception', 'RequestTooLongError'}
+                        for x in t.handlers):
+                    caught = True
+            if caught:
+                break
+            if h.name in ('handle_rpc', '__call__'):
+                covered = False
+                break
+            cur = h
+        res.ob('R4', where, 'RequestTooLongError raised eagerly in %s' %
+               chain_txt, 'ok' if covered else 'VIOLATED')
+        if not covered:
+            res.finding('R4', '%s|eager-refusal' % gf.qualname, where,
+                        'RequestTooLongError is raised eagerly (%s) outside '
+                        'any try/except Fault: it escapes the WSGI callable '
+                        'instead of becoming the request-too-long fault '
+                        '(start_response is never called)' % chain_txt)
+    # the configured limits reach the reader unmodified
+    n_cfg = 0
+    for k in prog.subclasses(prog.cls('spyne.server.http:HttpBase')):
+        for f in k.methods.values():
+            for n in walk_no_defs(f.node):
+                if not isinstance(n, ast.Assign):
+                    continue
+                for t in n.targets:
+                    if isinstance(t, ast.Attribute) and t.attr in (
+                            'max_content_length', 'block_length') and \
+                            dotted(t.value) == 'self':
+                        n_cfg += 1
+                        where = '%s:%d' % (f.module.relpath, n.lineno)
+                        v = n.value
+                        inst = '%s: self.%s = %s' % (f.qualname, t.attr,
+                                                     unparse(v)[:50])
+                        if isinstance(v, ast.Name) and v.id == t.attr:
+                            res.ob('R4', where, inst, 'ok')
+                        elif isinstance(v, ast.Call) and call_name(v) == 'int' \
+                                and len(v.args) == 1 and isinstance(
+                                v.args[0], ast.Name) and \
+                                v.args[0].id == t.attr:
+                            res.ob('R4', where, inst, 'ok')
+                        elif isinstance(v, (ast.BinOp, ast.IfExp)) or (
+                                isinstance(v, ast.Call) and call_name(v) in (
+                                    'max', 'min', 'abs', 'round')) or (
+                                isinstance(v, ast.Name) and
+                                v.id != t.attr) or isinstance(v,
+                                                              ast.Constant):
+                            res.ob('R4', where, inst, 'VIOLATED')
+                            res.finding('R4', '%s|config|%s' % (f.qualname,
+                                                                t.attr),
+                                        where, 'the configured %s is altered '
+                                        'before it is stored (%s); the '
+                                        'request-size guard then enforces a '
+                                        'different limit than the one the '
+                                        'deployer set' % (t.attr,
+                                                          unparse(v)[:60]))
+                        else:
+                            res.unclass('R4', where, inst)
+    res.floor('R4', 'limit configuration stores', n_cfg, 2)
     # content-length parse: CONTENT_LENGTH default is the limit itself
     for f in readers:
         for call in calls_in(f.node):
@@ -762,6 +897,18 @@ def rule_r5(prog, res):
                             where, 'the returned body %s does not carry a '
                             'deferred call of __finalize, so the context is '
                             'never (or not lazily) closed' % unparse(v)[:60])
+                continue
+            if isinstance(wrapper, FuncInfo) and any(
+                    isinstance(x, (ast.Yield, ast.YieldFrom))
+                    for x in walk_no_defs(wrapper.node)):
+                res.ob('R5', where, '%s returns generator %s(...)' % (
+                    name, wrapper.name), 'VIOLATED')
+                res.finding('R5', '%s|generator-wrapper' % wrapper.name,
+                            wrapper.where, 'the body is wrapped in a '
+                            'generator function: close() on a generator that '
+                            'was never started does not run its finally '
+                            'block, so a response closed before the first '
+                            'chunk is pulled never finalises the context')
                 continue
             if not isinstance(wrapper, ClassInfo):
                 res.ob('R5', where, '%s returns %s' % (name, unparse(v)[:60]),
@@ -1010,6 +1157,28 @@ MUTANTS = [
     Mutant('counter-not-advanced', 'R4', 'fire', _W,
            in_func('WsgiApplication.__wsgi_input_to_iterable',
                    'bytes_read += len(data)', 'bytes_read += 1'), 'counter'),
+    Mutant('eager-refusal', 'R4', 'fire', _W,
+           in_func('WsgiApplication',
+                   r"        bytes_read = 0\n\n        while bytes_read < "
+                   r"length:(.*?)            yield data\n",
+                   r"        return self.__read_blocks(istream, length)\n\n"
+                   r"    def __read_blocks(self, istream, length):\n"
+                   r"        bytes_read = 0\n\n        while bytes_read < "
+                   r"length:\1            yield data\n", regex=True),
+           'eager-refusal'),
+    Mutant('limit-raised-to-block', 'R4', 'fire', 'spyne/server/http.py',
+           in_func('HttpBase.__init__',
+                   'self.max_content_length = max_content_length',
+                   'self.max_content_length = max(max_content_length, '
+                   'block_length)'), 'config'),
+    Mutant('generator-closing-wrapper', 'R5', 'fire', _W,
+           in_func('_ClosingIterator',
+                   r"class _ClosingIterator\(object\):.*\Z",
+                   "def _ClosingIterator(body, finalizer):\n"
+                   "    try:\n        for chunk in body:\n"
+                   "            yield chunk\n    finally:\n"
+                   "        finalizer()\n", regex=True),
+           'generator-wrapper'),
     Mutant('twin-guard-reordered', 'R4', 'benign', _W,
            in_func('WsgiApplication.__wsgi_input_to_iterable',
                    "        if length > self.max_content_length:",
